@@ -188,6 +188,9 @@ def run(ctx, rep):
 
     balance.rule_bal(ctx, rep, scope=scope)
     balance.rule_unw(ctx, rep, scope=scope)
+    from . import c01 as _c01
+
+    _c01.rule_destroy(ctx, rep)  # "the right destructor and layout are used": whichever code releases the union's last reference destroys the payload once and gives the block back on every exit
     from . import c13
 
     class _OnlyUnionAuto:
